@@ -73,3 +73,23 @@ extern "C" void h_attr_write()
         if (want == W_AGGR || want == W_SELECT) __CPROVER_assert(g_writer_sch != 0 && !strcmp(g_writer_sch, "sch"), "the current schema reaches the aggregate / select writers");
     }
 }
+
+/* C01: an attribute that a subtype redeclares (explicitly, with a narrower type) keeps its value in the redeclaring attribute:
+ * that is where STEPattribute::STEPread / StrToVal / set_null / is_null go first.  The writer must take it from there too,
+ * whether or not the generator also flagged the inherited attribute as derived - otherwise the value read is written back as * */
+extern "C" void h_attr_write_redeclared()
+{
+    IN(int, in_derived_flag); IN(long, in_i);
+    __CPROVER_assume(in_i != S_INT_NULL);
+    STEPattribute *a = (STEPattribute *)malloc(sizeof(STEPattribute)); AttrDescriptor *ad = (AttrDescriptor *)malloc(sizeof(AttrDescriptor));
+    STEPattribute *r = (STEPattribute *)malloc(sizeof(STEPattribute)); AttrDescriptor *rd = (AttrDescriptor *)malloc(sizeof(AttrDescriptor));
+    SDAI_Integer iv = in_i;
+    g_base = INTEGER_TYPE;
+    a->_redefAttr = r; a->_derive = in_derived_flag != 0; a->aDesc = ad; a->ptr.p = 0;
+    r->_redefAttr = 0; r->_derive = false; r->aDesc = rd; r->ptr.i = &iv;
+    g_value_null = 0; g_writer = W_NONE; g_writer_calls = g_err_calls = 0;
+    ostream out; out._m_written = 0;
+    a->STEPattribute::STEPwrite(out, "sch");
+    __CPROVER_assert(out._m_written == 1 && !(out._m_logc[0] == 'S' && out._m_logt[0][0] == '*'), "C01 the value of an attribute redeclared by a subtype is written (from the redeclaring attribute, where the reader stored it), not replaced by *");
+    __CPROVER_assert(a->STEPattribute::is_null() == false, "the null test follows the redeclaring attribute");
+}
